@@ -155,8 +155,20 @@ CLASSIC = [
 ]
 
 
-def gen_classic_grammar(r, with_transl=True):
-    spec, ts = r.choice(CLASSIC)
+# nested `error` alternatives: several recoveries compete (different back positions, costs one
+# token apart, an earlier recovery's error set behind a later error)
+CLASSIC_ERR = [
+    ("S : ( X ) ;; X : a Y | error d x e ;; Y : b c | error e", "()adxebc"),
+    ("S : a M | error q ;; M : b N | error p ;; N : c d | error r", "abcdqpr"),
+    ("S : a b c d e | error b c d e", "abcde"),
+    ("P : P S | S ;; S : i ( E ) S | a ; | error ; | error ) ;; E : a | E + a | error", "i()a;+"),
+    ("S : B e | error e ;; B : b B | c | error c", "bce"),
+    ("S : L ;; L : L I | I ;; I : a b c | a error c | error c | ( L )", "abc()"),
+]
+
+
+def gen_classic_grammar(r, with_transl=True, err=False):
+    spec, ts = r.choice(CLASSIC_ERR if err else CLASSIC)
     tn = {}
     terms = []
     for i, ch in enumerate(ts):
@@ -190,7 +202,7 @@ def gen_structured_grammar(r, with_transl=True):
     rarely produce"""
     names = iter('pqrstuvwxyz' * 6)
     kind = r.choice(['follow-chain', 'follow-chain', 'shared-alts', 'shared-alts', 'first-chain', 'nullable-prefix', 'nullable-prefix',
-                     'stmt-list', 'stmt-list', 'twice', 'twice'])
+                     'stmt-list', 'stmt-list', 'twice', 'twice', 'recov-race', 'recov-race'])
     inputs_fn = None
     tn = ['a', 'b', 'c', 'd', 'e']
     terms = gen_terms(r, 5)
@@ -235,6 +247,22 @@ def gen_structured_grammar(r, with_transl=True):
             toks = []
             for _ in range(r.randint(3, 7)): toks += expand(r.choice(stm), r) + [sep]
             return mutate(r, toks, tn) if r.random() < 0.3 else toks
+    elif kind == 'recov-race':
+        # two recoveries compete: the inner `error` rule needs p tokens skipped, the outer one m
+        # list elements backed over; p - m in {-1, 0, 1, 2}: the cheaper one must win whatever
+        # the order in which the search meets them
+        terms = gen_terms(r, 8)
+        lp, rp, a, b, c, d, e, f = [n for n, _ in terms]
+        m = r.randint(1, 2); w = [d, e, f, d][:r.randint(3, 4)]
+        pskip = max(1, min(len(w) - 1, m + r.choice([-1, 0, 1, 1, 2])))
+        rules = [('S', [lp, 'X', rp]), ('X', [a] * m + ['Y']), ('X', ['error'] + w), ('Y', [b, c]), ('Y', ['error'] + w[pskip:])]
+        if r.random() < 0.3: rules.append(('Y', [b, 'error']))
+        if r.random() < 0.3: rules[0] = ('S', [lp, 'X', rp, 'S']); rules.append(('S', []))
+        base = [lp] + [a] * m + w + [rp]
+        def inputs_fn(r, tn, base=base):
+            t = list(base)
+            if r.random() < 0.3: t = t + t if rules[0][1][-1] == 'S' else t
+            return mutate(r, t, tn) if r.random() < 0.25 else t
     elif kind == 'twice':
         # the same constituent occurs twice in one sentence, predicted from different contexts:
         # the second occurrence must get the completions of its own context
@@ -290,6 +318,9 @@ def gen_structured_grammar(r, with_transl=True):
 def gen_grammar(r, nnt=None, nt_=None, err_prob=0.25, maxrules=3, strict=None, with_transl=True, tries=60):
     if nnt is None and nt_ is None and strict is None:
         x = r.random()
+        if err_prob >= 0.5 and r.random() < 0.15:
+            g = gen_classic_grammar(r, with_transl, err=True)
+            if g is not None: return g
         g = gen_structured_grammar(r, with_transl) if x < 0.12 else gen_classic_grammar(r, with_transl) if x < 0.24 else None
         if g is not None: return g
     """a random grammar accepted by the definition checks (if possible within `tries`)"""
@@ -756,8 +787,19 @@ def gen_descr_ast(r):
     if nid + nch == 0: nch = 1
     idterms = []
     used_codes = set()
+    # explicit codes just above 255 in descending / scattered order next to implicit terminals:
+    # the search for the next free implicit code has to skip them whatever their order
+    crowded = r.random() < 0.15
+    if crowded:
+        nid = r.randint(3, 6)
+        pool = r.sample(range(256, 256 + nid + 2), nid)
+        if r.random() < 0.6: pool.sort(reverse=True)
     for i in range(nid):
         name = r.choice(['NUM', 'ID', 'tok', 'T_%d' % i, 'x%d' % i]) + ('' if i == 0 else str(i))
+        if crowded:
+            code = pool[i] if r.random() < 0.6 else None
+            if code is not None: used_codes.add(code)
+            idterms.append((name, code)); continue
         if r.random() < 0.5:
             code = r.choice([1, 7, 200, 256, 257, 300, 1000, 70000])
             while code in used_codes: code += 1
